@@ -84,6 +84,15 @@ class Distribution(ABC):
             raise TypeError(f"stream {stream} not a random stream")
         self._stream: StreamInterface = stream
 
+    def _next_open_float(self) -> float:
+        """Return the next value of the stream in the open interval (0, 1),
+        for the draw methods that take its logarithm. The stream delivers
+        values in [0, 1); a value of exactly 0.0 is skipped."""
+        u = self._stream.next_float()
+        while u == 0.0:
+            u = self._stream.next_float()
+        return u
+
 
 class DistContinuous(Distribution):
     """
@@ -524,7 +533,7 @@ class DistErlang(DistContinuous):
             # repeated drawing and composition is usually faster for k<=10
             product: float = 1.0
             for _ in range(self._k):
-                product *= self._stream.next_float()
+                product *= self._next_open_float()
             return -self._scale * math.log(product)
         return self._dist_gamma.draw()
 
@@ -604,7 +613,7 @@ class DistExponential(DistContinuous):
         """
         Draw a value from the Exponential distribution.
         """
-        return -self._mean * math.log(self._stream.next_float())
+        return -self._mean * math.log(self._next_open_float())
 
     def probability_density(self, x: float) -> float:
         """Returns the probability density value for value x."""
@@ -704,8 +713,8 @@ class DistGamma(DistContinuous):
             counter: int = 0
             while counter < 1000:
                 #  step 1.
-                u1: float = self._stream.next_float()
-                u2: float = self._stream.next_float()
+                u1: float = self._next_open_float()
+                u2: float = self._next_open_float()
                 #  step 2.
                 v = a * math.log(u1 / (1.0 - u1))
                 y = self._shape * math.exp(v)
@@ -723,7 +732,7 @@ class DistGamma(DistContinuous):
         else:
             #  shape == 1.0
             #  Gamma(1.0, scale) ~ exponential with mean = scale
-            return -self._scale * math.log(self._stream.next_float())
+            return -self._scale * math.log(self._next_open_float())
 
     def probability_density(self, x: float) -> float:
         """Returns the probability density value for value x."""
@@ -796,7 +805,7 @@ class DistGeometric(DistDiscrete):
         the number of failures of independent Bernoulli trials until the
         first success.
         """
-        u = self._stream.next_float()
+        u = self._next_open_float()
         return math.floor(math.log(u) / self._lnp)
 
     def probability(self, observation: int) -> float:
@@ -872,7 +881,7 @@ class DistNegBinomial(DistDiscrete):
         """
         x: int = 0
         for _ in range(self._s):
-            u = self._stream.next_float()
+            u = self._next_open_float()
             x += math.floor(math.log(u) / self._lnp)
         return x
 
@@ -1741,7 +1750,7 @@ class DistWeibull(DistContinuous):
         """
         Draw a value from the Weibull distribution.
         """
-        return (self._beta * math.pow(-math.log(self._stream.next_float()), 
+        return (self._beta * math.pow(-math.log(self._next_open_float()), 
                                       1.0 / self._alpha))
 
     def probability_density(self, x: float) -> float:
